@@ -363,7 +363,9 @@ func writeExpr(sb *strings.Builder, e ast.Expr) {
 	}
 }
 
-func sameExpr(a, b ast.Expr) bool { return exprString(a) == exprString(b) && !strings.Contains(exprString(a), "*ast.") }
+func sameExpr(a, b ast.Expr) bool {
+	return exprString(a) == exprString(b) && !strings.Contains(exprString(a), "*ast.")
+}
 
 // pureExpr: identifiers, selectors, index and accessor calls without arguments (deterministic getters).
 func pureExpr(e ast.Expr) bool {
